@@ -221,6 +221,31 @@ def r2_first_match(ctx):
             r.inst("find_value", "the first branch (in declaration order) whose range contains the count is populated; no match -> Err")
         else:
             r.viol("R2:find_value", "parse-time selection over [5, 5..=7, 6, _] gives %s (expected %s); without a matching branch: %s" % (got, want, nomatch if isinstance(nomatch, str) else absint.fmt(nomatch)), file=fn.file, line=fn.line)
+    # the branches reach the matcher as declared: every (range, value) pair of the file, in file order, a repeated range included
+    # (the second one is unreachable, not a replacement) - deserialize_all_pairs evaluated on a sequence with repeats
+    fn = next((f for f in ast.fns if f.file.endswith(PR) and f.name == "deserialize_all_pairs" and f.body is not None and not f.is_test()), None)
+    if fn is None:
+        r.missing("ParseRanges::deserialize_all_pairs")
+    else:
+        from rules import absint
+        from rules.absint import AEval, C, CF, I, L, A, T, UNIT
+        b15 = CF("Bounds", start=C("Some", I(1)), end=C("Excluded", I(5)))
+        pairs = [T(C("Exact", I(1)), A("a")), T(b15, A("b")), T(b15, A("c")), T(C("Exact", I(1)), A("d")), T(C("Exact", I(0)), A("e")), T(C("Fallback"), A("f"))]
+        ev = AEval(funcs=absint.file_funcs(ast, PR, "Range"))
+        absint.set_program(ast)
+        ev.mut_builtins["next_element_seed"] = lambda rv, a: (L(*rv[1][1:]), C("Ok", C("Some", rv[1][0]))) if rv[0] == "list" and rv[1] else (rv, C("Ok", C("None")))
+        pn = fn.params()
+        try:
+            v = ev.run_fn(fn, [L(*pairs), L(), A("seed")][:len(pn)])
+        except absint.Unknown as u:
+            v = "UNKNOWN: %s" % u
+        after = (getattr(ev, "last_env", None) or {}).get(pn[1] if len(pn) > 1 else "ranges")
+        if isinstance(v, str):
+            r.viol("R2:deserialize_all_pairs#undecided", "cannot be interpreted on the current code (%s): not decided (fail closed)" % v[:200], file=fn.file, line=fn.line)
+        elif v == C("Ok", UNIT) and after == L(*pairs):
+            r.inst("deserialize_all_pairs", "6 declared branches incl. a repeated range and a repeated exact value: all kept, in file order")
+        else:
+            r.viol("R2:deserialize_all_pairs#declared", "the declared branches [1 => a, 1..5 => b, 1..5 => c, 1 => d, 0 => e, _ => f] are read as %s (result %s)" % (absint.fmt(after)[:300] if after else after, absint.fmt(v)[:80]), file=fn.file, line=fn.line)
     for name in ("to_tokens_integers", "to_tokens_integers_string", "to_tokens_floats", "to_tokens_floats_string"):
         fn = ast.fn(MR, name)
         if fn is None:
@@ -472,7 +497,43 @@ def r5_conversions(ctx, prog):
     tfb = prog.body("populate_with_count_arg::try_from")
     if tfb is None or not M.call_blocks(tfb, r"TryFrom<.*>>::try_from$|std::convert::TryFrom::try_from$"):
         r.viol("R5:try_from#impl", "helper try_from no longer converts with TryFrom::try_from", file=b.file)
+    number_forms(prog, r, "R5")
     return r
+
+
+def number_forms(prog, r, rid):
+    """a bound / exact value written as a JSON or YAML *number* reaches its numeric type through RangeNumber::from_u64 / from_i64 /
+    from_f64 (which of them depends on the file format's number model): MIR return summaries of all 30 impls - an integer type
+    takes exactly the values TryFrom accepts (one direct conversion of the input), a float type takes every number"""
+    import mirsum
+    seen = {}
+    for n, bb in prog.bodies.items():
+        m = re.search(r"RangeNumber for (\w+)>::(from_u64|from_i64|from_f64)$", n)
+        if m:
+            t = mirsum.summary(prog, bb, depth=1, args=[("cap", "v")])
+            seen[(m.group(1), m.group(2))] = (mirsum.fmt(t) if t is not None else "a branching computation", bb)
+    n_ok = 0
+    for ty in ("i8", "i16", "i32", "i64", "u8", "u16", "u32", "u64", "f32", "f64"):
+        for f in ("from_u64", "from_i64", "from_f64"):
+            if (ty, f) not in seen:
+                r.missing("<%s as RangeNumber>::%s" % (ty, f))
+                continue
+            got, bb = seen[(ty, f)]
+            if ty.startswith("f"):
+                ok = got == "Option#Some(v)"
+                w = "Some(v as %s): every number written in the file is a valid float bound" % ty
+            elif f == "from_f64":
+                ok = got == "Option#None()"
+                w = "None: a fractional number is not an integer bound"
+            else:
+                ok = re.match(r"^Result::ok\((?:TryFrom)?::try_from\(v\)\)$", got) is not None
+                w = "%s::try_from(v).ok(): exactly the values the type can hold" % ty
+            if ok:
+                n_ok += 1
+            else:
+                r.viol("%s:RangeNumber::%s#%s" % (rid, f, ty), "<%s as RangeNumber>::%s is `%s`, expected %s" % (ty, f, got, w), file=bb.file, line=bb.line)
+    if n_ok == 30:
+        r.inst("RangeNumber::from_u64/from_i64/from_f64", "30 impls: integers through TryFrom of the number as written (whatever 64-bit form the file format hands over), floats accept every number")
 
 
 def r6_populate(ctx):
@@ -498,6 +559,47 @@ def r6_populate(ctx):
                 r.inst("populate_with_count_arg#" + k, "variable count renames the count key")
             else:
                 r.viol("R6:populate_with_count_arg#" + k, "a `{{ var }}` count no longer renames the count variable", file=fn.file, line=fn.line)
+    if fn is not None:
+        # a literal count: evaluated (rules/absint.py) for every numeric type x literal kind x count - the first branch containing
+        # the count is populated with exactly the arguments of the reference (the count stays what the file says)
+        from rules import absint as _ai
+        from rules.absint import AEval as _AE, C as _C, CF as _CF, A as _A, T as _T, L as _L, I as _I
+        _ai.set_program(ast)
+        _S = lambda x: ("str", x)  # noqa: E731
+        n_ok = 0
+        bad = None
+        for ty in TYPES:
+            for kind in ("Float", "Unsigned", "Signed"):
+                for cnt, wantv in ((1, "v1"), (3, "v2"), (9, "v3")) + (((16777217, "v3"),) if ty in ("F32", "F64", "I32", "I64", "U32", "U64") else ()):
+                    argsv = _L(_T(_S("var_count"), _C("Literal", _C(kind, _I(cnt)))), _T(_S("var_x"), _A("X")))
+                    log = []
+                    ev = _AE(funcs=_ai.file_funcs(ast, PR, "Range"))
+
+                    def pop(rv, a, log=log):
+                        log.append((rv, a[0]))
+                        return _C("Ok", _A("populated"))
+                    ev.builtins["populate"] = pop
+                    ev.path_builtins["TryFrom::try_from"] = lambda a: _C("Ok", a[0])
+                    br = _L(_T(_C("Exact", _I(1)), _A("v1")), _T(_CF("Bounds", start=_C("Some", _I(2)), end=_C("Included", _I(4))), _A("v2")), _T(_C("Fallback"), _A("v3")))
+                    try:
+                        v = ev.run_fn(fn, [_CF("Ranges", inner=_C(ty, br), count_key=_A("ck")), _C("Literal", _C(kind, _I(cnt))), argsv, _A("fk"), _A("locale"), _A("kp")])
+                    except _ai.Unknown as u:
+                        v = "UNKNOWN: %s" % u
+                    if isinstance(v, str):
+                        bad = bad or ("undecided", "%s range, %s literal: %s" % (ty, kind, v[:200]))
+                        continue
+                    n_ok += 1
+                    compatible = (kind == "Float") == ty.startswith("F")
+                    if compatible:
+                        if not (v == _C("Ok", _A("populated")) and len(log) == 1 and log[0][0] == _A(wantv) and log[0][1][0] == "list" and sorted(log[0][1][1]) == sorted(argsv[1])):
+                            bad = bad or ("args", "a %s range with the literal count %d (%s) populates %s, expected branch %s with the reference's own arguments unchanged" % (
+                                ty, cnt, kind, [(_ai.fmt(a), "own arguments" if b[0] == "list" and sorted(b[1]) == sorted(argsv[1]) else _ai.fmt(b)[:160]) for a, b in log], wantv))
+                    elif not (v[0] == "ctor" and v[1] == "Err" and not log):
+                        bad = bad or ("type", "a %s range accepts a %s literal count" % (ty, kind))
+        if bad:
+            r.viol("R6:populate_with_count_arg#literal-" + bad[0], bad[1], file=fn.file, line=fn.line)
+        else:
+            r.inst("populate_with_count_arg#literal", "%d evaluations (10 types x 3 literal kinds x counts 1, 3, 9 and 2^24+1, which an f32 cannot hold): first containing branch, the reference's arguments unchanged; a float literal only for float ranges" % n_ok)
     fns = [f for f in ast.fns_named(PR, "inner") if f.qual.endswith("Ranges::populate_with_new_key::inner")]
     outer = ast.fn(PR, "populate_with_new_key", impl_self="Ranges")
     fn = fns[0] if fns else None
